@@ -18,7 +18,7 @@
 //	2nd: the harness plays the remote side of the handshake to completion (fate ok), or closes its pipe end (hf),
 //	     or lets Dial fail (df); the goroutine runs afterHandshakeCheck + savePeer (or the failure path) and returns
 //	3rd: the wrapped connection is closed (removePeer)
-//	4th…: nothing
+//	4th…: Close() is called AGAIN on the stale Conn handle (only if the connection had been established)
 //
 // The connections are net.Pipe()s whose RemoteAddr is the descriptor's address, so the harness decides exactly when each
 // goroutine proceeds from check to save.  After every op the controller's own observables are printed
@@ -304,6 +304,9 @@ func exec(line string) hx.Result {
 	res := hx.Result{Kind: "ok"}
 	hang := false
 	sawRace := map[byte]bool{}
+	staleHit := map[byte]bool{} // direction -> a stale Close() hit the address of a live connection
+	nStale := 0
+	dupDial := false
 	rejKinds := map[string]bool{}
 	maxInflight := 0
 
@@ -361,6 +364,11 @@ func exec(line string) hx.Result {
 				} else {
 					r = "rej:" + rejKind(cr.err)
 					rejKinds[rejKind(cr.err)] = true
+					for _, u := range order {
+						if u != t && t.dir == 'o' && u.dir == 'o' && u.stage == 1 && u.addr() == t.addr() {
+							dupDial = true // refused duplicate of a dial that is still in flight
+						}
+					}
 				}
 				if t.dir == 'o' {
 					dl.mu.Lock()
@@ -424,6 +432,18 @@ func exec(line string) hx.Result {
 			t.stage = 3
 			t.established = false
 			r = "closed"
+		case 3:
+			if t.wrapped != nil {
+				// a further Close() of the stale Conn handle of a connection that had been established and closed
+				for _, u := range order {
+					if u != t && u.established && u.dir == t.dir && u.addr() == t.addr() {
+						staleHit[t.dir] = true // the address has reconnected meanwhile: its record belongs to a LIVE connection
+					}
+				}
+				t.wrapped.Close()
+				r = "again"
+				nStale++
+			}
 		}
 		if hang {
 			outs = append(outs, "HANG")
@@ -488,12 +508,24 @@ func exec(line string) hx.Result {
 						what, dir = "per-ip-limit", 'i'
 					}
 				}
+				// the counters must not under-count the established connections (distinct addresses per direction are
+				// guaranteed by hasBoundAddr): an under-count is a free slot that does not exist
+				if what == "" && len(in) < liveIn {
+					what, dir = "inbound-undercount", 'i'
+				} else if what == "" && len(out) < liveOut {
+					what, dir = "outbound-undercount", 'o'
+				}
 			}
 			if what != "" {
 				// classifier: was the violating save preceded, after its own check, by a save of another connection of
 				// the same direction (check-then-act), or is the limit exceeded even without such an interleaving?
 				cls := what + "-exceeded-without-interleaving"
-				if dir != 0 && t.established && t.saveAt == k {
+				if strings.HasSuffix(what, "undercount") {
+					cls = what
+				}
+				if dir != 0 && staleHit[dir] {
+					cls = "stale-close-drops-live-record"
+				} else if dir != 0 && t.established && t.saveAt == k {
 					for _, u := range order {
 						if u != t && u.dir == dir && u.saveAt > t.checkAt && u.saveAt < k && u.stage >= 2 && !u.rejected {
 							cls = what + "-check-then-act"
@@ -548,6 +580,15 @@ func exec(line string) hx.Result {
 			kind += "+" + k
 			break
 		}
+	}
+	if dupDial {
+		kind += "+dupdial"
+	}
+	if nStale > 0 {
+		kind += "+again"
+	}
+	if staleHit['i'] || staleHit['o'] {
+		kind += "+stalehit"
 	}
 	if res.Class != "" {
 		kind = "VIOLATED:" + res.Class
